@@ -198,7 +198,7 @@ class Source:
         self.src = open(path).read()
         self.mask = code_mask(self.src)
 
-    def find_container(self, header_pat):
+    def find_container(self, header_pat, all_hits=False):
         """header_pat: normalized text the item header must START with (after attrs/docs), e.g.
         'impl Mer for DnaString', \"impl<'a> Vmer for DnaStringSlice<'a>\", 'pub trait Kmer'."""
         want = norm(header_pat)
@@ -211,18 +211,25 @@ class Source:
                     hits.append((hs, o, c))
                 elif want.startswith("impl") and hdr.startswith(want) and " for " not in hdr[len(want):]:
                     hits.append((hs, o, c))
+        if all_hits:
+            return hits
         if len(hits) != 1:
             raise ExtractError("%s: container %r matched %d items" % (self.path, header_pat, len(hits)))
         return hits[0]
 
     def find_fn(self, container, name):
+        # several impl blocks may carry the same header (`impl<K: Kmer, D> BaseGraph<K, D>` twice in graph.rs): the
+        # function is looked up in all of them and must be found exactly once
         if container in ("-", ""):
-            lo, hi = 0, len(self.src)
+            ranges = [(0, len(self.src))]
         else:
-            _, o, c = self.find_container(container)
-            lo, hi = o + 1, c
+            conts = self.find_container(container, all_hits=True)
+            if not conts:
+                raise ExtractError("%s: container %r matched 0 items" % (self.path, container))
+            ranges = [(o + 1, c) for _, o, c in conts]
         hits = []
-        for hs, o, c in find_items(self.src, self.mask, lo, hi):
+        for lo, hi in ranges:
+          for hs, o, c in find_items(self.src, self.mask, lo, hi):
             hdr = strip_noncode(self.src, self.mask, hs, o)
             m = re.search(r"\bfn\s+%s\b" % re.escape(name), strip_attrs(hdr))
             if m and re.match(r"^\s*(?:pub(?:\([^)]*\))?\s+)?(?:const\s+)?(?:unsafe\s+)?fn\s+%s\b" % re.escape(name),
